@@ -213,6 +213,21 @@ check("C13", "exploration",
       "runtime monitoring: differential oracle (reference object model + documented definitions incl. laziness) over generated inheritance chains and probes",
       "DESIGN.md §3 C13")
 
+check("C14", "exploration",
+      "Writes JSON-like values of depth <= 3 whose keys and strings come from a format-hostile alphabet (quotes, backslash, "
+      "# : - = [ ] { } , & * ! | > % @ ` ?, edge white space, tab, CR, C0 controls, U+007F, C1 / NEL, LS / PS, BOM, non-ASCII, "
+      "astral, empty string, YAML 1.1 keywords in several cases, number / date / sexagesimal / radix look-alikes) and "
+      "block-scalar-safe multi-line strings with std.manifestYamlDoc / YamlStream / Toml / TomlEx / Python / PythonVars / "
+      "XmlJsonml / Ini under every option combination and with the CLI format constructors (through the library, and through "
+      "the executable for a sample), reads each text back with an independent reader (PyYAML safe_load, tomllib, "
+      "ast.literal_eval, xml.etree, a line-based INI reader) and requires the same data; values outside each format's "
+      "domain must be rejected. Failing values are reduced to a minimal failing value of the domain before being reported.",
+      "PyYAML's YAML 1.1 resolver is the YAML reader; JSON documents inside a YAML stream are only required to read back "
+      "when they contain no DEL / C1 / LS / PS (raw in JSON, accepted only by YAML 1.2). Domains of INI, XML names and "
+      "PythonVars keys are stated in the evidence assumptions.",
+      "runtime monitoring: round-trip oracle through independent format readers over generated hostile values and option combinations, with witness reduction",
+      "DESIGN.md §3 C14")
+
 NOT_APPLICABLE = []
 
 
